@@ -192,6 +192,51 @@ CHECKS = {
         technique=TECH + 'seeded command/model reordering schedule of declarative netlist files; '
                   'cycle-by-cycle replica agreement with an independent evaluator',
         design='5 C12'),
+    'C18': dict(
+        level='exploration',
+        text='Seeded histories: AES encrypt/decrypt state machines under scheduler-chosen reset '
+             'pulses with fresh operands (in-flight pulses = abort_restart), checked against a '
+             'FIPS-197 reference for the operands sampled at the last pulse within 11 cycles, '
+             'held afterwards, and round-tripped end to end; prng_lfsr / prng_xoroshiro128 / '
+             'csprng_trivium with a seed wire, bitwidths 1..256 and bits_per_cycle 1..64 under '
+             'load/req histories (conformant, early = abort_restart, reseeds), each completed '
+             'request compared with the next chunk of the published algorithm and ready timing '
+             'with the docstrings. Single-cycle AES on FIPS vectors + random blocks counted as '
+             'stateless samples. Sampling, not proof.',
+        note='Trusted: verifsim/c18_refs.py (AES from FIPS-197 with computed S-box, LFSR, '
+             'xoroshiro128+ 55/14/36, bit-serial Trivium anchored on the published vectors); '
+             'protocol readings listed under ASSUMPTIONS in the evidence file.',
+        technique=TECH + 'protocol histories with abort_restart faults at scheduler-chosen cycles; '
+                  'bounded-liveness and exact-stream oracles against reference implementations',
+        design='5 C18'),
+    'C13': dict(
+        level='exploration',
+        text='Simulated part: simple_mult / complex_mult (all legal shifts, widths 1..12) driven by '
+             'a recorded tape of start pulses, with aborts (a pulse while in flight, usually with '
+             'new operands) and operand changes injected at scheduler-chosen cycles; a per-cycle '
+             'monitor demands done within len(A)+1 cycles of the last pulse with stable operands, '
+             'then product == A*B and done held. Stateless part (declared as such in the evidence): '
+             'every combinational adder / multiplier generator with its parameters, widths 1..16 '
+             'mixed, exhaustive values when total input bits <= 10, boundary + random beyond, '
+             'against Python integers. Sampling, not proof.',
+        note='Trusted: Python integer arithmetic; pyrtl.Simulation / FastSimulation as the '
+             'executor (C01/C02). Bound len(A)+1 is the property\'s (the docstring says len(A)).',
+        technique=TECH + 'pulse-schedule histories with abort_restart faults and bounded-liveness '
+                  'monitor for the sequential multipliers; stateless sampling for the rest',
+        design='5 C13'),
+    'C17': dict(
+        level='exploration',
+        text='Schedule exploration only (this property has no fault dimension): API-built designs '
+             '(reconvergent fan-out, a+a, register loops, memories with write->read paths) are '
+             'built K times under different hash seeds and Block.__iter__ tie-break policies; '
+             'timing_map / max_length / critical_path / max_freq / paths (all call forms) / '
+             'distance / fanout, expressed by names, must equal an independent longest-path and '
+             'simple-path computation in every build and agree across builds. Sampling, not proof.',
+        note='Trusted: the independent graph computations in verifsim/props/c17.py; max_freq is '
+             'checked against the formula in the code (the docstring gives none).',
+        technique=TECH + 'seeded schedule search (hash-order seam + iteration tie-break hook) with '
+                  'schedule-invariance and graph-definition oracles',
+        design='5 C17'),
 }
 
 NOT_APPLICABLE = {
